@@ -390,9 +390,10 @@ Proof. unfold b2a_base58, conv. destruct (to_long 256 byte_id s) as [[v p]| |]; 
 Lemma a2b_as_conv t : a2b_base58 A t =
   match utf8_encode t with
   | Ret b => conv (base58_base A) (base58_lookup A) 256 z_to_byte b
+  | Raise E_VALUE => Raise E_ENCODING
   | Raise e => Raise e | OutOfFuel => OutOfFuel end.
 Proof.
-  unfold a2b_base58, conv. destruct (utf8_encode t); reflexivity.
+  unfold a2b_base58, conv. destruct (utf8_encode t) as [b|e|]; try reflexivity. destruct e; reflexivity.
 Qed.
 
 Lemma all_bytes_digits s : Forall (fun c => byte_id c <> None) s.
@@ -452,18 +453,17 @@ Proof.
 Qed.
 
 (* ---- rejection of strings outside the alphabet ------------------------------------------------------- *)
-Definition valid_str (t : pystr) : Prop := Forall (fun c => (c < 1114112)%N) t.
-Definition is_surrogate (c : N) : bool := ((55296 <=? c) && (c <=? 57343))%N.
-Definition no_surrogate (t : pystr) : Prop := Forall (fun c => is_surrogate c = false) t.
-
-Lemma utf8_encode_total t : valid_str t -> no_surrogate t -> exists b, utf8_encode t = Ret b.
+(* str.encode("utf8") either succeeds or raises UnicodeEncodeError (lone surrogate) *)
+Lemma utf8_encode_cases t : (exists b, utf8_encode t = Ret b) \/ utf8_encode t = Raise E_VALUE.
 Proof.
-  induction 1 as [|c r Hc _ IH]; intros Hs; [now exists []|].
-  inversion Hs as [|? ? Hs1 Hs2]; subst. destruct (IH Hs2) as (br & E).
-  cbn [utf8_encode]. rewrite E. unfold utf8_char. unfold is_surrogate in Hs1.
-  destruct (c <? 128)%N; [eauto|]. destruct (c <? 2048)%N; [eauto|].
-  rewrite Hs1. destruct (c <? 65536)%N; [eauto|].
-  replace (c <? 1114112)%N with true by lia. eauto.
+  induction t as [|c r IH]; [left; now exists []|].
+  cbn [utf8_encode].
+  assert (Hc : (exists bc, utf8_char c = Ret bc) \/ utf8_char c = Raise E_VALUE).
+  { unfold utf8_char. destruct (c <? 128)%N; [eauto|]. destruct (c <? 2048)%N; [eauto|].
+    destruct ((55296 <=? c) && (c <=? 57343))%N; [now right|]. destruct (c <? 65536)%N; [eauto|].
+    destruct (c <? 1114112)%N; [eauto|now right]. }
+  destruct Hc as [(bc & ->) | ->]; [|now right].
+  destruct IH as [(br & ->) | ->]; [left; eauto|now right].
 Qed.
 
 Lemma utf8_char_b58 c bc : utf8_char c = Ret bc ->
@@ -498,34 +498,25 @@ Proof.
   constructor; [eapply utf8_char_b58; eauto|eapply IH; eauto].
 Qed.
 
-(* a str (without lone surrogates) that has a character outside the alphabet raises EncodingError *)
-Theorem b58_rejects_non_alphabet : forall t : pystr, valid_str t -> no_surrogate t -> ~ Forall b58_char t ->
+(* EVERY str that has a character outside the alphabet (non-ASCII text and lone surrogates included)
+   raises EncodingError *)
+Theorem b58_rejects_non_alphabet : forall t : pystr, ~ Forall b58_char t ->
   btc_a2b_base58 t = Raise E_ENCODING.
 Proof.
-  intros t Hv Hs Hn. unfold btc_a2b_base58. rewrite a2b_as_conv.
-  destruct (utf8_encode_total t Hv Hs) as (b & E). rewrite E.
+  intros t Hn. unfold btc_a2b_base58. rewrite a2b_as_conv.
+  destruct (utf8_encode_cases t) as [(b & E)|E]; rewrite E; [|reflexivity].
   apply conv_bad. intros HF. apply Hn. eapply utf8_encode_b58; eauto.
 Qed.
 
-(* a lone surrogate anywhere makes a2b_base58 raise UnicodeEncodeError (modelled E_VALUE) instead *)
-Lemma utf8_encode_surrogate t : valid_str t -> ~ no_surrogate t -> utf8_encode t = Raise E_VALUE.
+(* the decoder never raises anything but EncodingError and never runs out of fuel *)
+Theorem b58_decode_total : forall t : pystr,
+  (exists s, btc_a2b_base58 t = Ret s) \/ btc_a2b_base58 t = Raise E_ENCODING.
 Proof.
-  induction 1 as [|c r Hc Hr IH]; intros Hn; [exfalso; apply Hn; constructor|].
-  cbn [utf8_encode]. unfold utf8_char.
-  destruct (is_surrogate c) eqn:Es.
-  - unfold is_surrogate in Es. replace (c <? 128)%N with false by lia. replace (c <? 2048)%N with false by lia.
-    rewrite Es. reflexivity.
-  - rewrite IH by (intros HF; apply Hn; constructor; assumption).
-    unfold is_surrogate in Es.
-    destruct (c <? 128)%N; [reflexivity|]. destruct (c <? 2048)%N; [reflexivity|].
-    rewrite Es. destruct (c <? 65536)%N; [reflexivity|].
-    replace (c <? 1114112)%N with true by lia. reflexivity.
-Qed.
-
-Theorem b58_surrogate_raises_value_error : forall t : pystr, valid_str t -> ~ no_surrogate t ->
-  btc_a2b_base58 t = Raise E_VALUE.
-Proof.
-  intros t Hv Hn. unfold btc_a2b_base58. rewrite a2b_as_conv, utf8_encode_surrogate by assumption. reflexivity.
+  intros t. destruct (Forall_dec b58_char
+    (fun c => ltac:(destruct (b58_charb c) eqn:E; [left; now apply b58_charb_iff|
+                    right; intros H; apply b58_charb_iff in H; congruence])) t) as [H|H].
+  - left. destruct (b58_encode_decode t H) as (s & E & _). eauto.
+  - right. now apply b58_rejects_non_alphabet.
 Qed.
 
 (* ---- Base58Check -------------------------------------------------------------------------------------- *)
